@@ -12,6 +12,25 @@ pick_violation(Rng &r, const JobSpec &s)
         return n ? cand[r.below((uint32_t) n)] : 0;
 }
 
+// a scatter-gather job that carries its whole message as a segment list (IMB_SGL_ALL)
+static JobSpec
+gen_sgl_all_job(Rng &r, const GenOpts &go)
+{
+        Suite s;
+        s.cipher = r.chance(0.5) ? IMB_CIPHER_GCM_SGL : IMB_CIPHER_CHACHA20_POLY1305_SGL;
+        s.hash = (uint8_t) aead_hash_for(s.cipher);
+        s.key_len = s.cipher == IMB_CIPHER_GCM_SGL ? (uint16_t) r.pick(cipher_key_lens(IMB_CIPHER_GCM)) : 32;
+        s.dir = r.chance(0.5) ? IMB_DIR_ENCRYPT : IMB_DIR_DECRYPT;
+        s.order = s.dir == IMB_DIR_ENCRYPT ? IMB_ORDER_CIPHER_HASH : IMB_ORDER_HASH_CIPHER;
+        JobSpec j = gen_job(r, s, go);
+        j.sgl_state = IMB_SGL_ALL;
+        uint32_t k = r.range(0, 6);
+        for (uint32_t c = 0; c < k; c++)
+                j.cuts.push_back(r.below(j.c_len + 1));
+        std::sort(j.cuts.begin(), j.cuts.end());
+        return j;
+}
+
 static Suite
 parker_suite()
 {
@@ -80,6 +99,7 @@ profile_by_name(const std::string &name, const std::string &prop, int tier)
         } else if (name == "reject") { // C12
                 p.oracles = OR_FIFO | OR_DESC | OR_REJECT | OR_MEM | OR_SOLO;
                 p.allow_invalid = p.allow_misuse = true;
+                p.sgl_jobs = true;
                 p.guard = true;
                 p.max_ops = 80;
                 p.max_len = 600;
@@ -202,7 +222,21 @@ gen_plan(const ProfileCfg &pc, uint64_t run_seed)
         if (go.max_len > 8192 && nops > 60)
                 nops = 60; // long messages: keep the run short
 
+        // scatter-gather jobs among the ordinary ones (profiles that submit invalid jobs): whole-message (ALL) jobs valid or
+        // invalid, single-state (INIT / UPDATE / COMPLETE) jobs only ever with a violation, so that no stream is left open
+        const double p_sgl = pc.sgl_jobs && r.chance(0.5) ? 0.08 : 0.0;
         auto mkjob = [&](bool allow_inv) {
+                if (p_sgl > 0 && r.chance(p_sgl)) {
+                        JobSpec j = gen_sgl_all_job(r, go);
+                        if (allow_inv && r.chance(0.6)) {
+                                if (r.chance(0.4))
+                                        j.sgl_state = (uint8_t) r.below(3);
+                                j.viol = (uint16_t) pick_violation(r, j);
+                                if (!j.viol)
+                                        j.sgl_state = IMB_SGL_ALL;
+                        }
+                        return j;
+                }
                 JobSpec j = gen_job(r, r.pick(suites), go);
                 if (allow_inv && p_invalid > 0 && r.chance(p_invalid))
                         j.viol = (uint16_t) pick_violation(r, j);
@@ -705,20 +739,8 @@ gen_plan_sgl(const ProfileCfg &pc, uint64_t run_seed)
                         op.jobs.push_back(gen_job(r, r.pick(others), go));
                 } else if (x < 90) {
                         // SGL_ALL job with its own segment list
-                        Suite s;
-                        s.cipher = r.chance(0.5) ? IMB_CIPHER_GCM_SGL : IMB_CIPHER_CHACHA20_POLY1305_SGL;
-                        s.hash = (uint8_t) aead_hash_for(s.cipher);
-                        s.key_len = s.cipher == IMB_CIPHER_GCM_SGL ? (uint16_t) r.pick(cipher_key_lens(IMB_CIPHER_GCM)) : 32;
-                        s.dir = r.chance(0.5) ? IMB_DIR_ENCRYPT : IMB_DIR_DECRYPT;
-                        s.order = s.dir == IMB_DIR_ENCRYPT ? IMB_ORDER_CIPHER_HASH : IMB_ORDER_HASH_CIPHER;
-                        JobSpec j = gen_job(r, s, go);
-                        j.sgl_state = IMB_SGL_ALL;
-                        uint32_t k = r.range(0, 6);
-                        for (uint32_t c = 0; c < k; c++)
-                                j.cuts.push_back(r.below(j.c_len + 1));
-                        std::sort(j.cuts.begin(), j.cuts.end());
                         op.kind = OP_SUBMIT;
-                        op.jobs.push_back(j);
+                        op.jobs.push_back(gen_sgl_all_job(r, go));
                 } else if (x < 95)
                         op.kind = OP_FLUSH;
                 else
